@@ -18,7 +18,7 @@ def rules(ctx, tier):
     must = ctx.must(None)
     state_mod = None
     for b in prog.bodies.values():
-        if b.path in ctx.role_bodies():
+        if b.path in ctx.apply_roots():
             state_mod = b.module
     loaders = c02.snapshot_loader(ctx)
     loader_mods = set(b.module for b in loaders)
@@ -31,10 +31,10 @@ def rules(ctx, tier):
             "cannot find the module of the apply body")
     # counters written in the apply body
     counter_fields = set()
-    for p in ctx.role_bodies():
-        for w in ctx.world.field_writes:
-            if w.body.path == p:
-                counter_fields.add(w.field)
+    fam = ctx.apply_family()
+    for w in ctx.world.field_writes:
+        if w.body.path in fam:
+            counter_fields.add(w.field)
     for cu in ctx.world.container_uses:
         if ANCHOR_FIELDS.get(cu.field) == "REFCNT" and cu.mutable:
             r.check(cu.site.body.module in allowed_mods, "refcount-mutator:%s" % cu.site.body.path.split("::")[-1], cu.site.body,
@@ -52,13 +52,13 @@ def rules(ctx, tier):
             continue
         direct = [cu for cu in ctx.world.container_uses if cu.site.body.path == b.path and
                   ANCHOR_FIELDS.get(cu.field) == "REFCNT" and cu.mutable and cu.method not in ("clear",)]
-        if not direct or b.path in ctx.role_bodies() or b in loaders:
+        if not direct or b.path in ctx.apply_roots() or b in loaders:
             continue
         for (cs, how) in prog.callers_index().get(b.path, []):
             r.check(cs.body.module in allowed_mods, "primitive-caller:%s" % b.path.split("::")[-1], cs.body,
                     "%s is called from %s" % (b.path.split("::")[-1], cs.body.path),
                     "%s is called from %s, outside %s" % (b.path, cs.body.path, sorted(allowed_mods)), site_where(cs))
-    r.need(10, "refcount mutators, counter writes, primitive callers")
+    r.need(8, "refcount mutators, counter writes, primitive callers")
     out.append(r.finish())
 
     r = Rule("R2", "statistics balance on every path of the apply step: distinct-blob counter = first references - "
